@@ -115,6 +115,10 @@ def cmdScan (args : List String) : String :=
 
 def hexB (b : Bytes) : String := if b.isEmpty then "-" else hexOfBytes b
 
+/-- file names are reported cleaned (the harness makes them relative to the project directory) -/
+def cleanName (b : Bytes) : Bytes := joinSegs (cleanSegs (splitOn47 b))
+def hexN (b : Bytes) : String := hexB (cleanName b)
+
 def canonPrefix (m : String) : String :=
   canonQuotes <|
   if m.startsWith "UC|" || m.startsWith "EOF|" || m.startsWith "M|" then m else "M|" ++ m
@@ -123,9 +127,9 @@ partial def renderTree (depth : Nat) : Tree Dir → List String
   | .node d kids =>
     let named := (d.named.toArray.qsort (fun a b => a.1 < b.1)).toList.map (fun kv => kv.1 ++ "=" ++ hexB kv.2)
     let body := match d.body with
-      | some (f, b, e) => s!"{hexB f}:{b}:{e}"
+      | some (f, b, e) => s!"{hexN f}:{b}:{e}"
       | none => "-"
-    let me := s!"{depth};{d.kind.keyword};{hexB d.keyword};{",".intercalate named};{",".intercalate (d.unnamed.map hexB)};{hexB d.ann};{body};{if d.explicit then "E" else "I"};{hexB d.file};{d.kwBegin}:{d.kwEnd}"
+    let me := s!"{depth};{d.kind.keyword};{hexB d.keyword};{",".intercalate named};{",".intercalate (d.unnamed.map hexB)};{hexB d.ann};{body};{if d.explicit then "E" else "I"};{hexN d.file};{d.kwBegin}:{d.kwEnd}"
     me :: (kids.map (renderTree (depth + 1))).flatten
 
 structure ProjFile where
@@ -152,20 +156,20 @@ def parseFiles : List String → Option (List ProjFile)
   | _ => none
 
 def renderAccesses (acc : List (String × Bytes)) : String :=
-  "ACC " ++ ",".intercalate (acc.reverse.map (fun a => a.1 ++ ":" ++ hexB a.2)) ++ " | "
+  "ACC " ++ ",".intercalate (acc.reverse.map (fun a => a.1 ++ ":" ++ hexN a.2)) ++ " | "
 
 def renderPErr (files : List ProjFile) (e : PErr) : String :=
-  let content (f : Bytes) : Bytes := match files.find? (fun x => x.name == f) with
+  let content (f : Bytes) : Bytes := match files.find? (fun x => x.name == cleanName f) with
     | some x => x.content.toList
     | none => []
   match newLocation (content e.file) e.idx.toNat with
   | none => "PANIC"
   | some loc =>
     let tr := e.trace.map (fun t => match newLocation (content t.1) t.2.toNat with
-      | some l => some s!"{hexB t.1}:{l.line}"
+      | some l => some s!"{hexN t.1}:{l.line}"
       | none => none)
     if tr.any (·.isNone) then "PANIC" else
-    s!"ERR {hexStr (canonPrefix e.msg)} {hexB e.file} {e.idx} {loc.line} {loc.col} {hexB loc.quote} {",".intercalate (tr.filterMap id)}"
+    s!"ERR {hexStr (canonPrefix e.msg)} {hexN e.file} {e.idx} {loc.line} {loc.col} {hexB loc.quote} {",".intercalate (tr.filterMap id)}"
 
 def projFuel (files : List ProjFile) : Nat :=
   16 * (files.foldl (fun n f => n + f.content.size + 4) 0) + 64
@@ -176,7 +180,7 @@ def cmdProj (args : List String) : String :=
     match unhex rootHex, parseFiles rest with
     | some root, some files =>
       let root := root.toList
-      match files.find? (fun f => f.name == root && !f.isDir) with
+      match files.find? (fun f => f.name == cleanName root && !f.isDir) with
       | none => "BAD-INPUT no root"
       | some rf =>
         let core : Core := { current := { name := root, env := mkEnv rf.content rf.oracle.lenAt, sc := Sc.init .stateRoot } }
@@ -185,7 +189,7 @@ def cmdProj (args : List String) : String :=
         | .error (.panic _) => "PANIC"
         | .error .fuel => "FUEL"
         | .error (.err e) =>
-          if e.msg.startsWith "M|ORACLE-MISS " then "MISS " ++ hexB e.file ++ " " ++ (e.msg.drop 14).toString
+          if e.msg.startsWith "M|ORACLE-MISS " then "MISS " ++ hexN e.file ++ " " ++ (e.msg.drop 14).toString
           else
             let r := renderPErr files e
             if r == "PANIC" then r else renderAccesses e.acc ++ r
